@@ -609,7 +609,8 @@ def s_attribute_text(_ctx):
     cl = "C13: 'constants incl. nan/inf/negative/0-d/1-d' — 'it never emits text that is not valid Python or that denotes a different computation'"
     cases = [("alpha", 0.5), ("alpha", float("inf")), ("alpha", float("-inf")), ("alpha", float("nan")), ("alpha", -0.0), ("floats", [1.0, float("inf")]),
              ("floats", [float("nan")]), ("floats", [-1.5, 2.0]), ("axis", -3), ("axes", [0, -1]), ("mode", "inf"), ("mode", "nan's"), ("modes", ["inf", "linear"]),
-             ("value", np.array([float("nan"), 1.0], dtype=np.float32)), ("value", np.array(float("-inf"), dtype=np.float32)), ("value", np.array([[1, 2]], dtype=np.int64))]
+             ("value", np.array([float("nan"), 1.0], dtype=np.float32)), ("value", np.array(float("-inf"), dtype=np.float32)), ("value", np.array([[1, 2]], dtype=np.int64)),
+             ("value", np.array(["banana", "info"], dtype=object)), ("value", np.array("nan", dtype=object)), ("value", np.array([True, False]))]
     env = {"np": np, "make_tensor": helper.make_tensor}
     n = 0
 
@@ -635,7 +636,10 @@ def s_attribute_text(_ctx):
             got = eval(v, dict(env))
             if isinstance(value, np.ndarray):
                 arr = numpy_helper.to_array(got)
-                ok = arr.dtype == value.dtype and arr.shape == value.shape and np.array_equal(arr, value, equal_nan=True)
+                if value.dtype == object:    # a STRING tensor: elements come back as bytes
+                    ok = arr.shape == value.shape and [x.decode() if isinstance(x, bytes) else x for x in arr.ravel().tolist()] == value.ravel().tolist()
+                else:
+                    ok = arr.dtype == value.dtype and arr.shape == value.shape and np.array_equal(arr, value, equal_nan=True)
             elif isinstance(value, float) or (isinstance(value, list) and value and isinstance(value[0], float)):
                 # a FLOAT attribute is stored as float32
                 want = float(np.float32(value)) if isinstance(value, float) else [float(np.float32(x)) for x in value]
@@ -916,6 +920,81 @@ def s_loop_protocol(_ctx):
 SCENARIOS.append(Scenario("C13.export.loop_protocol", s_loop_protocol, [(REL, "_Exporter._translate_loop"), (REL, "_Exporter._emit_assign"), (REL, "_Exporter._translate_onnx_var")],
                           kind="evaluation", trusted=["_translate_graph_body emits, in order, one statement per body node that reads the variables _translate_onnx_var gives the node's "
                                                       "inputs and assigns the ones it gives the node's outputs (its own contracts: operator_text, initializer_names, attribute_text)"]))
+
+
+def s_loop_state_simultaneous(_ctx):
+    """ONNX Loop: ALL next-state values are the body outputs of the finished iteration (simultaneous update).  A body may return its own
+    state inputs permuted (outputs b_in, a_in for inputs a_in, b_in), or feed one state's input to another; the statements the exporter
+    emits at the end of the body are EXECUTED here (plain Python on integers) and must have the effect of the simultaneous update —
+    whatever their syntactic form (tuple assignment, temporaries, ...).  (Outer names that coincide with body names are not considered:
+    ONNX requires the names of a graph and its subgraphs to be distinct.)"""
+    from onnx import helper, TensorProto
+    from contracts.c17_opsets import Agg
+    from pyvc.core import Ctx
+    exp = _exp()
+    agg = Agg()
+    cl = ("C13: the emitted source 'computes the same outputs as the original for every input' — ONNX Loop: the body outputs of an iteration become the "
+          "state of the next one, all at once")
+    cases = {
+        "body returns its two state inputs swapped": (["a_in", "b_in"], ["b_in", "a_in"], ["x0", "y0"], ["fa", "fb"]),
+        "body passes state a on to state b and computes a": (["a_in", "b_in"], ["a_new", "a_in"], ["x0", "y0"], ["fa", "fb"]),
+        "three states rotated": (["a_in", "b_in", "c_in"], ["c_in", "a_in", "b_in"], ["x0", "y0", "z0"], ["fa", "fb", "fc"]),
+    }
+    n = 0
+    for case, (fin, fout, ain, aout) in cases.items():
+        n += 1
+        ctx = Ctx([], {"solver_s": 0.0, "queries": 0})
+        I = Interp(ctx)
+        ex = exp._Exporter(rename=False, use_operators=False, inline_const=False, skip_initializers=False)
+        ex._name_remappings.append({})
+        computed = [o for o in fout if o not in fin]
+        body_nodes = [helper.make_node("Identity", ["cond_in"], ["cond_out"])] + [helper.make_node("Neg", [fin[0]], [o]) for o in computed]
+        vi = lambda nm, t=TensorProto.FLOAT: helper.make_tensor_value_info(nm, t, [])
+        body = helper.make_graph(body_nodes, "body", [vi("i", TensorProto.INT64), vi("cond_in", TensorProto.BOOL)] + [vi(x) for x in fin],
+                                 [vi("cond_out", TensorProto.BOOL)] + [vi(x) for x in fout])
+        node = helper.make_node("Loop", ["trip", ""] + ain, aout, body=body)
+        I.models[exp._Exporter._translate_graph_body] = lambda interp, slf, g, opsets, indent=0: "    " * indent + "pass  # <body>"
+        try:
+            text = I.run_closure(I.closure_of(exp._Exporter._translate_loop), [ex, node, {"": 18}], {"indent": 1})
+        except Exception as e:  # noqa: BLE001
+            agg.ob("C13.export.loop.protocol.translates_every_loop_with_a_stop_condition", False, f"{case}: {type(e).__name__}: {e}", cl, case=case)
+            continue
+        lines = text.splitlines()
+        bi = [i for i, ln in enumerate(lines) if ln.strip().startswith("pass  # <body>")]
+        hdr = [i for i, ln in enumerate(lines) if ln.strip().startswith(("for ", "while "))]
+        if len(bi) != 1 or len(hdr) != 1:
+            agg.ob("C13.export.loop.protocol.body_translated_once", False, f"{case}: {lines}", cl, case=case)
+            continue
+        import textwrap
+
+        def run(stmts, env):
+            env = dict(env)
+            exec(textwrap.dedent("\n".join(stmts)) or "pass", {}, env)  # noqa: S102 - the exporter's own assignment statements, on integers
+            return env
+        before = lines[:hdr[0]]
+        end_of_body = [ln for ln in lines[bi[0] + 1:] if ln.startswith("        ")]
+        after = [ln for ln in lines[bi[0] + 1:] if not ln.startswith("        ")]
+        names = sorted(set(fin + fout + ain + aout + ["cond_in", "cond_out", "trip"]))
+        env0 = {nm: 100 + k for k, nm in enumerate(names)}
+        try:
+            e1 = run(before, env0)
+            ok1 = all(e1[f] == env0[a] for f, a in zip(fin, ain))
+            e2 = run(end_of_body, env0)
+            ok2 = all(e2[f] == env0[o] for f, o in zip(fin, fout))
+            e3 = run(after, env0)
+            ok3 = all(e3[o] == env0[f] for o, f in zip(aout, fin))
+        except Exception as e:  # noqa: BLE001
+            agg.ob("C13.export.loop.protocol.state_statements_are_plain_assignments", False, f"{case}: {type(e).__name__}: {e}: {lines}", cl, case=case)
+            continue
+        agg.ob("C13.export.loop.protocol.initial_state_is_assigned_simultaneously", ok1, f"{case}: statements before the loop {[x.strip() for x in before]}", cl, case=case)
+        agg.ob("C13.export.loop.protocol.next_state_is_assigned_simultaneously", ok2,
+               f"{case}: statements at the end of the body {[x.strip() for x in end_of_body]}: executed from {[(f, env0[f]) for f in fin]}, next state should be "
+               f"{[(f, env0[o]) for f, o in zip(fin, fout)]} but is {[(f, e2[f]) for f in fin]}", cl, case=case)
+        agg.ob("C13.export.loop.protocol.final_outputs_are_assigned_simultaneously", ok3, f"{case}: statements after the loop {[x.strip() for x in after]}", cl, case=case)
+    return {"obligations": agg.obs, "paths": n, "covered": [f"loop_state_cases={n}"], "notes": [], "functions": []}
+
+
+SCENARIOS.append(Scenario("C13.export.loop_state_simultaneous", s_loop_state_simultaneous, [(REL, "_Exporter._translate_loop"), (REL, "_Exporter._emit_assign")], kind="evaluation"))
 
 
 def s_function_value_names(_ctx):
